@@ -491,7 +491,7 @@ def _own_exprs(repo, rep):
 
 
 BINDERS = ("Lambda", "ListComp", "SetComp", "DictComp", "GeneratorExp",
-           "NamedExpr")
+           "NamedExpr", "FunctionDef")
 
 
 def _binders(repo, rep, rule="R04.6", handlers=True):
@@ -542,7 +542,18 @@ def _binders(repo, rep, rule="R04.6", handlers=True):
                       "scope (nested binders see outer parameters)" % b,
                       construct="empty-scope:" + b, where=L.where(m),
                       detail="self.scopes.append(%s)" % arg)
-        if b == "Lambda" and pushes:
+        if b == "FunctionDef" and pushes:
+            # assignments inside a function body bind Python locals of that
+            # function, not template variables: they are registered in the
+            # function's scope before the body is rewritten
+            pre = any(isinstance(n, ast.For) and "ast.walk(node)" in
+                      src(n.iter) and "Store" in src(n) and
+                      ".add(" in src(n) for n in ast.walk(m.node))
+            rep.check(pre, rule, m.qualname, "names assigned inside a "
+                      "function body are local to it (registered before the "
+                      "body is rewritten)", construct="function-locals",
+                      where=L.where(m))
+        if b in ("Lambda", "FunctionDef") and pushes:
             # default values belong to the enclosing scope: they are visited
             # before the lambda's scope is opened (in the new scope the
             # parameter of the same name -- lambda x=x: ... -- would hide the
@@ -555,10 +566,10 @@ def _binders(repo, rep, rule="R04.6", handlers=True):
             generic = [n for n in ast.walk(m.node) if isinstance(n, ast.Call)
                        and src(n.func).endswith("generic_visit")]
             rep.check({"defaults", "kw_defaults"} <= names and not generic,
-                      rule, m.qualname, "a lambda's default values are "
-                      "rewritten in the enclosing scope, before its "
+                      rule, m.qualname, "default values are "
+                      "rewritten in the enclosing scope, before the "
                       "parameters are bound (and not again inside)",
-                      construct="lambda-defaults-outside", where=L.where(m),
+                      construct="defaults-outside:" + b, where=L.where(m),
                       detail="visited early: %s, generic_visit calls: %d" % (
                           sorted(names), len(generic)))
         pops = [n for n in ast.walk(m.node) if isinstance(n, ast.Call)
